@@ -45,47 +45,36 @@ def labelStems : List String := ["if_begin", "if_else", "if_end", "loop_begin", 
 def primNames : List (String × String) := [("U8", "u8"), ("U16", "u16"), ("U32", "u32"), ("U64", "u64"), ("I8", "i8"), ("I16", "i16"), ("I32", "i32"), ("I64", "i64"), ("F32", "f32"), ("F64", "f64"), ("Bool", "bool"), ("Char", "char"), ("Ptr", "ptr"), ("None", "()")]
 
 /-- every `unwrap` / `expect` / `unreachable!` / `panic!` / slice index / counter `+ 1` in the
-non-codec code of semantic.rs and block_state.rs: (file, function, kind, occurrences) -/
-def panicSites : List (String × String × String × Nat) := [
-  ("semantic.rs", "import", "index", 1),
-  ("semantic.rs", "function_call", "index", 1),
-  ("semantic.rs", "if_condition", "expect", 2),
-  ("semantic.rs", "expression_operation", "unreachable", 1),
-  ("semantic.rs", "expression_operations_priority", "unreachable", 1),
-  ("block_state.rs", "inc_register", "add", 1),
-  ("block_state.rs", "set_attr_counter", "index", 3),
-  ("block_state.rs", "set_attr_counter", "add", 1)
+non-codec code of semantic.rs and block_state.rs, per file and kind.  The model reproduces each:
+the two `expect`s of `if_condition` are `setPanic` sites, the two `unreachable!`s are dead by
+construction of the fold, the indexings are guarded (call arity, `split('.')` has a first part),
+the counters are `Nat`.  Aggregated per file and kind so that moving code into a helper of the
+same file is not a change; a new site is. -/
+def panicSites : List (String × String × Nat) := [
+  ("semantic.rs", "index", 2),
+  ("semantic.rs", "expect", 2),
+  ("semantic.rs", "unreachable", 2),
+  ("block_state.rs", "add", 2),
+  ("block_state.rs", "index", 3)
 ]
 
-/-- every statement of semantic.rs that mutates `self.global`, `self.errors` or `self.context`:
-(function, kind, occurrences) -/
-def mutationSites : List (String × String × Nat) := [
-  ("add_error", "errors.push", 1),
-  ("add_state_context", "context.push", 1),
-  ("check_type_exists", "add_error", 1),
-  ("types", "global.types.insert", 1),
-  ("types", "global.context", 1),
-  ("types", "add_error", 1),
-  ("check_constant_value_expression", "add_error", 1),
-  ("constant", "global.constants.insert", 1),
-  ("constant", "global.context", 1),
-  ("constant", "add_error", 1),
-  ("function_declaration", "global.functions.insert", 1),
-  ("function_declaration", "global.context", 1),
-  ("function_declaration", "add_error", 1),
-  ("init_func_params", "add_error", 1),
-  ("function_body", "add_error", 4),
-  ("function_body", "add_state_context", 1),
-  ("let_binding", "add_error", 1),
-  ("binding", "add_error", 3),
-  ("function_call", "add_error", 3),
-  ("condition_expression", "add_error", 3),
-  ("if_condition_body", "add_error", 1),
-  ("if_condition_loop_body", "add_error", 3),
-  ("if_condition", "add_error", 1),
-  ("loop_statement", "add_error", 3),
-  ("expression_operation", "add_error", 6)
+/-- statements of semantic.rs that mutate `self.global`, `self.errors` or `self.context` and the calls
+of the two recording helpers, per kind: errors are recorded only through `add_error`, function
+stacks only through `add_state_context`, the global tables only by insertion (nothing is removed,
+cleared or reassigned). -/
+def mutationSites : List (String × Nat) := [
+  ("global.types.insert", 1),
+  ("global.constants.insert", 1),
+  ("global.functions.insert", 1),
+  ("global.context", 3),
+  ("errors.push", 1),
+  ("context.push", 1),
+  ("add_error", 34),
+  ("add_state_context", 1)
 ]
+
+/-- no function reachable from `function_body` mutates `self.global` (C16, C17) -/
+def bodyGlobalMutators : List String := []
 
 /-- serde shape of every item deriving `Serialize` under the `codec` feature:
 (file, item, container attributes, fields or variants) -/
@@ -184,8 +173,17 @@ theorem inv_errKinds : Generated.errKinds = Model.errKinds := by decide
 theorem inv_instrShapes : Generated.instrShapes = Model.instrShapes := by decide
 theorem inv_labelStems : Generated.labelStems = Model.labelStems := by decide
 theorem inv_primNames : Generated.primNames = Model.primNames := by decide
-theorem inv_panicSites : Generated.panicSites = Model.panicSites := by decide
-theorem inv_mutationSites : Generated.mutationSites = Model.mutationSites := by decide +kernel
+/-- every listed site kind of `gen` is known to `model`, with at most as many occurrences: removing or
+merging sites (a helper that replaces two identical `expect`s) is not a change, a new site is -/
+def sitesLe2 (gen model : List (String × String × Nat)) : Bool :=
+  gen.all fun (f, k, n) => model.any fun (f', k', m) => f == f' && k == k' && n ≤ m
+
+def sitesLe1 (gen model : List (String × Nat)) : Bool :=
+  gen.all fun (k, n) => model.any fun (k', m) => k == k' && n ≤ m
+
+theorem inv_panicSites : sitesLe2 Generated.panicSites Model.panicSites = true := by decide +kernel
+theorem inv_mutationSites : sitesLe1 Generated.mutationSites Model.mutationSites = true := by decide +kernel
+theorem inv_bodyGlobalMutators : Generated.bodyGlobalMutators = Model.bodyGlobalMutators := by decide
 theorem inv_serdeShapes : Generated.serdeShapes = Model.serdeShapes := by decide +kernel
 
 /-- the model's error kinds are the source's, in order -/
